@@ -638,7 +638,15 @@ func watWhere(a, b string) string {
 			f := strings.Fields(t)
 			cur = strings.TrimLeft(f[0], "(")
 			if cur == "func" && len(f) > 1 {
-				cur = "func " + reNum.ReplaceAllString(strings.TrimRight(f[1], ")"), "N")
+				name := strings.TrimRight(f[1], ")")
+				switch {
+				case strings.HasSuffix(name, ".init"):
+					cur = "package-init"
+				case strings.HasPrefix(name, "$runtime.") || strings.HasPrefix(name, "$$runtime."):
+					cur = "func(runtime)"
+				default:
+					cur = "func(user)"
+				}
 			}
 		}
 		if la[i] != lb[i] {
